@@ -33,7 +33,7 @@ def run(tier, seed, replay=None):
     events = sum(len(r) for r in traces.values())
     chk.samples += [{'history': s['name'], 'machine': s['_machine']['name'], 'config': s['config'], 'first_events': [e['op'] for e in s['events'][:12]]} for s in scripts[:2]]
     return chk.finish(
-        rule='random structured NRI histories biased to fill pools (many whole-CPU Guaranteed containers mixed with shared ones) on 8 synthetic machines; '
+        rule='random structured NRI histories biased to fill pools (many whole-CPU Guaranteed containers mixed with shared ones) on 10 synthetic machines (the corpus of recorded histories is replayed first, 3 copies each); '
              'non-trivial = >=2 live containers at once, >=1 exclusive grant, >=1 release and >=1 request that changed another container',
         evaluations=events, distinct=nt, traces=stats['traces'],
         extra_cov={'histories': len(traces), 'events': events, 'model_ops': dict(stats),
